@@ -1072,4 +1072,459 @@ theorem split_eq_runs (ps : List (Row × Int)) (h : ps ≠ []) :
   · rfl
 
 
+/-- `np.unique` of a non-decreasing index list is the list of run indices -/
+theorem unique_eq_runs : ∀ (ps : List (Row × Int)), (ps.map (·.2)).Pairwise (· ≤ ·) →
+    unique (ps.map (·.2)) = (runsOf ps).map (·.1) := by
+  intro ps
+  induction ps with
+  | nil => intro _; rfl
+  | cons p ps ih =>
+    intro hp
+    obtain ⟨a, w⟩ := p
+    simp only [List.map_cons, List.pairwise_cons] at hp
+    have ih' := ih hp.2
+    cases ps with
+    | nil => simp [unique, insertUnique, runsOf]
+    | cons p' rest =>
+      obtain ⟨a', w'⟩ := p'
+      obtain ⟨g, rs, hr⟩ := runsOf_head a' w' rest
+      have hle : w ≤ w' := hp.1 w' (by simp)
+      have hu : unique (((a, w) :: (a', w') :: rest).map (·.2)) =
+          insertUnique w (unique (((a', w') :: rest).map (·.2))) := rfl
+      rw [hu, ih', runsOf_cons a w, hr]
+      simp only [List.map_cons, insertUnique]
+      by_cases hw : w' = w
+      · subst hw; simp
+      · have : w < w' := by omega
+        simp [this, hw]
+
+/-- run indices strictly increase and stay in `[lo, n)` -/
+def Asc (n : Int) : Int → List (Int × List Row) → Prop
+  | _, [] => True
+  | lo, (v, _) :: rs => lo ≤ v ∧ v < n ∧ Asc n (v + 1) rs
+
+theorem Asc_mono {n : Int} : ∀ {rs : List (Int × List Row)} {lo lo' : Int}, lo' ≤ lo → Asc n lo rs → Asc n lo' rs := by
+  intro rs
+  cases rs with
+  | nil => intros; trivial
+  | cons p rs =>
+    obtain ⟨v, g⟩ := p
+    intro lo lo' h ha
+    exact ⟨by have := ha.1; omega, ha.2.1, ha.2.2⟩
+
+theorem runsOf_asc (n : Int) : ∀ (ps : List (Row × Int)) (lo : Int), (ps.map (·.2)).Pairwise (· ≤ ·) →
+    (∀ p ∈ ps, lo ≤ p.2 ∧ p.2 < n) → Asc n lo (runsOf ps) := by
+  intro ps
+  induction ps with
+  | nil => intros; trivial
+  | cons p ps ih =>
+    intro lo hp hr
+    obtain ⟨a, w⟩ := p
+    simp only [List.map_cons, List.pairwise_cons] at hp
+    have hw := hr (a, w) (List.mem_cons_self ..)
+    cases ps with
+    | nil => simp [runsOf, Asc]; exact ⟨hw.1, hw.2⟩
+    | cons p' rest =>
+      obtain ⟨a', w'⟩ := p'
+      obtain ⟨g, rs, hrun⟩ := runsOf_head a' w' rest
+      have hle : w ≤ w' := hp.1 w' (by simp)
+      rw [runsOf_cons a w, hrun]
+      by_cases hww : w' = w
+      · subst hww
+        have := ih lo hp.2 (fun p hp' => hr p (List.mem_cons_of_mem _ hp'))
+        rw [hrun] at this
+        simpa [Asc] using this
+      · have hlt : w < w' := by omega
+        have := ih (w + 1) hp.2 (by
+          intro p hp'
+          have h1 := hr p (List.mem_cons_of_mem _ hp')
+          have h2 : w' ≤ p.2 := by
+            cases hp' with
+            | head => exact Int.le_refl _
+            | tail _ h =>
+              have hpw := (List.pairwise_cons.1 hp.2).1
+              exact hpw p.2 (List.mem_map.2 ⟨p, h, rfl⟩)
+          exact ⟨by omega, h1.2⟩)
+        rw [hrun] at this
+        simp only [hww, ite_false, Asc]
+        exact ⟨hw.1, hw.2, this⟩
+
+theorem groupOf_eq_nil_of_asc {n : Int} : ∀ {rs : List (Int × List Row)} {lo j : Int}, Asc n lo rs → j < lo →
+    groupOf j rs = [] := by
+  intro rs
+  induction rs with
+  | nil => intros; rfl
+  | cons p rs ih =>
+    obtain ⟨v, g⟩ := p
+    intro lo j ha hj
+    have : v ≠ j := by have := ha.1; omega
+    simp only [groupOf, this, ite_false]
+    exact ih ha.2.2 (by have := ha.1; omega)
+
+/-- inserting empties at consecutive positions right after `done` -/
+theorem foldl_insert_range (k : Nat) : ∀ (done tail : List (List Row)),
+    (List.range' done.length k).foldl (fun acc c => pyInsert acc c []) (done ++ tail) =
+      done ++ List.replicate k [] ++ tail := by
+  induction k with
+  | zero => intro done tail; simp
+  | succ k ih =>
+    intro done tail
+    rw [List.range'_succ, List.foldl_cons]
+    have h1 : pyInsert (done ++ tail) done.length [] = (done ++ [[]]) ++ tail := by
+      simp [pyInsert]
+    rw [h1]
+    have := ih (done ++ [[]]) tail
+    simp only [List.length_append, List.length_singleton] at this
+    rw [this]
+    simp [List.replicate_succ]
+
+/-- the `for c_i in empty_containers: things_split.insert(c_i, things[:0])` loop puts every run at its own index -/
+theorem insert_empties (n : Nat) : ∀ (runs : List (Int × List Row)) (lo : Nat) (done : List (List Row)),
+    done.length = lo → lo ≤ n → Asc (n : Int) (lo : Int) runs →
+    (emptyIdsLoop n lo (runs.map (·.1.toNat))).foldl (fun acc c => pyInsert acc c []) (done ++ runs.map (·.2)) =
+      done ++ (List.range' lo (n - lo)).map fun (j : Nat) => groupOf (j : Int) runs := by
+  intro runs
+  induction runs with
+  | nil =>
+    intro lo done hd hlo _
+    simp only [List.map_nil, emptyIdsLoop, List.append_nil, groupOf]
+    by_cases h : lo < n
+    · have := foldl_insert_range (n - lo) done []
+      rw [hd] at this
+      have hm : List.map (fun (_ : Nat) => ([] : List Row)) (List.range' lo (n - lo)) = List.replicate (n - lo) [] := by
+        simp [List.eq_replicate_iff]
+      simp only [h, ite_true, hm]
+      simpa using this
+    · have : n - lo = 0 := by omega
+      simp [h, this]
+  | cons p rs ih =>
+    obtain ⟨v, g⟩ := p
+    intro lo done hd hlo ha
+    obtain ⟨h1, h2, h3⟩ := ha
+    have hv : ((v.toNat : Nat) : Int) = v := by omega
+    have hlov : lo ≤ v.toNat := by omega
+    have hvn : v.toNat < n := by omega
+    simp only [List.map_cons, emptyIdsLoop, List.foldl_append]
+    have hfirst := foldl_insert_range (v.toNat - lo) done (g :: rs.map (·.2))
+    rw [hd] at hfirst
+    rw [hfirst]
+    have hre : done ++ List.replicate (v.toNat - lo) [] ++ g :: rs.map (·.2) =
+        (done ++ List.replicate (v.toNat - lo) [] ++ [g]) ++ rs.map (·.2) := by simp
+    rw [hre, ih (v.toNat + 1) _ (by simp; omega) (by omega) (by rw [Int.natCast_add, hv]; exact h3)]
+    have hsplit : List.range' lo (n - lo) =
+        List.range' lo (v.toNat - lo) ++ (v.toNat :: List.range' (v.toNat + 1) (n - (v.toNat + 1))) := by
+      have e1 : n - lo = (v.toNat - lo) + ((n - (v.toNat + 1)) + 1) := by omega
+      have e2 : lo + (v.toNat - lo) = v.toNat := by omega
+      rw [e1, ← List.range'_append_1, List.range'_succ, e2]
+    rw [hsplit, List.map_append, List.map_cons]
+    have hA : (List.range' lo (v.toNat - lo)).map (fun (j : Nat) => groupOf (j : Int) ((v, g) :: rs)) =
+        List.replicate (v.toNat - lo) [] := by
+      rw [List.eq_replicate_iff]
+      refine ⟨by simp, ?_⟩
+      intro b hb
+      obtain ⟨j, hj, rfl⟩ := List.mem_map.1 hb
+      have hj' := List.mem_range'_1.1 hj
+      have hne : v ≠ (j : Int) := by omega
+      simp only [groupOf, hne, ite_false]
+      exact groupOf_eq_nil_of_asc h3 (by omega)
+    have hB : groupOf ((v.toNat : Nat) : Int) ((v, g) :: rs) = g := by simp [groupOf, hv]
+    have hC : (List.range' (v.toNat + 1) (n - (v.toNat + 1))).map (fun (j : Nat) => groupOf (j : Int) ((v, g) :: rs)) =
+        (List.range' (v.toNat + 1) (n - (v.toNat + 1))).map (fun (j : Nat) => groupOf (j : Int) rs) := by
+      apply List.map_congr_left
+      intro j hj
+      have hj' := List.mem_range'_1.1 hj
+      have hne : v ≠ (j : Int) := by omega
+      simp [groupOf, hne]
+    rw [hA, hB, hC]
+    simp
+
+/-- the run with index `j` holds exactly the things whose index is `j` -/
+theorem groupOf_runsOf (j : Int) : ∀ (ps : List (Row × Int)), (ps.map (·.2)).Pairwise (· ≤ ·) →
+    groupOf j (runsOf ps) = (ps.filter fun p => decide (p.2 = j)).map (·.1) := by
+  intro ps
+  induction ps with
+  | nil => intro _; rfl
+  | cons p ps ih =>
+    intro hp
+    obtain ⟨a, w⟩ := p
+    simp only [List.map_cons, List.pairwise_cons] at hp
+    have ih' := ih hp.2
+    have hR : (((a, w) :: ps).filter fun p => decide (p.2 = j)).map (·.1) =
+        if w = j then a :: (ps.filter fun p => decide (p.2 = j)).map (·.1)
+        else (ps.filter fun p => decide (p.2 = j)).map (·.1) := by
+      simp only [List.filter_cons]
+      by_cases h : w = j <;> simp [h]
+    rw [hR, ← ih', runsOf_cons a w]
+    cases ps with
+    | nil => simp only [runsOf, groupOf]
+    | cons p' rest =>
+      obtain ⟨a', w'⟩ := p'
+      obtain ⟨g, rs, hrun⟩ := runsOf_head a' w' rest
+      have hle : w ≤ w' := hp.1 w' (by simp)
+      have hall : ∀ p ∈ (a', w') :: rest, w' ≤ p.2 := by
+        intro p hp'
+        cases hp' with
+        | head => exact Int.le_refl _
+        | tail _ h =>
+          have hpw := (List.pairwise_cons.1 hp.2).1
+          exact hpw p.2 (List.mem_map.2 ⟨p, h, rfl⟩)
+      rw [hrun]
+      by_cases hww : w' = w
+      · subst hww
+        simp only [ite_true, groupOf]
+        by_cases hj : w' = j <;> simp [hj]
+      · have hlt : w < w' := by omega
+        simp only [hww, ite_false, groupOf]
+        by_cases hj : w = j
+        · subst hj
+          have hne : w' ≠ w := hww
+          have hnone : groupOf w ((w', g) :: rs) = [] := by
+            rw [← hrun, ih', List.map_eq_nil_iff, List.filter_eq_nil_iff]
+            intro p hp'
+            have := hall p hp'
+            simp; omega
+          simp only [ite_true]
+          simp only [groupOf] at hnone
+          rw [hnone]
+        · simp [hj]
+
+
+/-! ### `split_by_containment`: the interval part -/
+
+/-- direct definition of `split_by_containment`: for every container, all things it contains, in order -/
+def splitSpec (contains : Row → Row → Bool) (things containers : List Row) : List (List Row) :=
+  containers.map fun b => things.filter fun a => contains a b
+
+theorem nonOverlap_pairwise {l : List Row} (hs : sortedByTimeB l = true) (hn : nonOverlapB l = true) :
+    l.Pairwise (fun a b => a.endt ≤ b.time) := by
+  induction l with
+  | nil => exact List.Pairwise.nil
+  | cons a l ih =>
+    exact List.pairwise_cons.2 ⟨nonOverlapB_head_le hs hn, ih (sortedByTimeB_tail hs) (nonOverlapB_tail hn)⟩
+
+/-- the answer of `fully_contained_in` for one thing, unpacked -/
+theorem firstIdxFrom_zero_cases (p : Row → Bool) (bs : List Row) :
+    (firstIdxFrom 0 p bs = -1 ∧ ∀ b ∈ bs, p b = false) ∨
+    (∃ j : Nat, ∃ h : j < bs.length, firstIdxFrom 0 p bs = (j : Int) ∧ p bs[j] = true ∧
+      ∀ (i : Nat) (hi : i < j), ¬ p (bs[i]'(by omega)) = true) := by
+  unfold firstIdxFrom
+  cases hf : bs.findIdx? p with
+  | none => left; exact ⟨rfl, List.findIdx?_eq_none_iff.1 hf⟩
+  | some j =>
+    right
+    obtain ⟨h, h1, h2⟩ := List.findIdx?_eq_some_iff_getElem.1 hf
+    exact ⟨j, h, by simp, h1, h2⟩
+
+/-- two different non-overlapping containers cannot both contain the same thing -/
+theorem contained_unique {bs : List Row} (hpw : bs.Pairwise (fun a b => a.endt ≤ b.time)) {a : Row} {i j : Nat}
+    (hi : i < bs.length) (hj : j < bs.length) (hci : containedIn a bs[i] = true) (hcj : containedIn a bs[j] = true) :
+    i = j := by
+  simp only [containedIn, Bool.and_eq_true, decide_eq_true_eq] at hci hcj
+  rcases Nat.lt_trichotomy i j with h | h | h
+  · have := List.pairwise_iff_getElem.1 hpw i j hi hj h; omega
+  · exact h
+  · have := List.pairwise_iff_getElem.1 hpw j i hj hi h; omega
+
+theorem firstIdx_eq_iff {bs : List Row} (hpw : bs.Pairwise (fun a b => a.endt ≤ b.time)) (a : Row) (j : Nat)
+    (hj : j < bs.length) : firstIdxFrom 0 (containedIn a) bs = (j : Int) ↔ containedIn a bs[j] = true := by
+  rcases firstIdxFrom_zero_cases (containedIn a) bs with ⟨h1, h2⟩ | ⟨k, hk, h1, h2, _⟩
+  · constructor
+    · intro h; omega
+    · intro h; have := h2 _ (List.getElem_mem hj); simp [h] at this
+  · constructor
+    · intro h
+      have : k = j := by omega
+      subst this; exact h2
+    · intro h
+      have := contained_unique hpw hk hj h2 h
+      subst this; exact h1
+
+/-- later things get later (or the same) containers -/
+theorem firstIdx_mono {bs : List Row} (hpw : bs.Pairwise (fun a b => a.endt ≤ b.time)) {a a' : Row}
+    (hle : a.time ≤ a'.time) (h : firstIdxFrom 0 (containedIn a) bs ≠ -1)
+    (h' : firstIdxFrom 0 (containedIn a') bs ≠ -1) :
+    firstIdxFrom 0 (containedIn a) bs ≤ firstIdxFrom 0 (containedIn a') bs := by
+  rcases firstIdxFrom_zero_cases (containedIn a) bs with ⟨h1, _⟩ | ⟨j, hj, h1, h2, _⟩
+  · exact absurd h1 h
+  rcases firstIdxFrom_zero_cases (containedIn a') bs with ⟨h1', _⟩ | ⟨j', hj', h1', h2', _⟩
+  · exact absurd h1' h'
+  rw [h1, h1']
+  by_cases hlt : j' < j
+  · have := List.pairwise_iff_getElem.1 hpw j' j hj' hj hlt
+    simp only [containedIn, Bool.and_eq_true, decide_eq_true_eq] at h2 h2'
+    omega
+  · omega
+
+theorem splitByContainmentCore_eq_spec {things containers : List Row} (ht : sortedByTimeB things = true)
+    (hc : sortedByTimeB containers = true) (hn : nonOverlapB containers = true) :
+    splitByContainmentCore things containers = splitSpec containedIn things containers := by
+  have hpw := nonOverlap_pairwise hc hn
+  -- the kept (thing, index) pairs
+  let f : Row → Int := fun a => firstIdxFrom 0 (containedIn a) containers
+  have hwhich : fcInCore things containers = things.map f := fcInCore_eq_spec ht hc hn
+  have hzip : things.zip (things.map f) = things.map fun a => (a, f a) := zip_map_self things f
+  let ps : List (Row × Int) := (things.map fun a => (a, f a)).filter fun p => p.2 != -1
+  have hmem : ∀ p ∈ ps, ∃ a ∈ things, p = (a, f a) ∧ f a ≠ -1 := by
+    intro p hp
+    obtain ⟨h1, h2⟩ := List.mem_filter.1 hp
+    obtain ⟨a, ha, rfl⟩ := List.mem_map.1 h1
+    exact ⟨a, ha, rfl, by simpa using h2⟩
+  have hrange : ∀ p ∈ ps, (0 : Int) ≤ p.2 ∧ p.2 < (containers.length : Int) := by
+    intro p hp
+    obtain ⟨a, _, rfl, hne⟩ := hmem p hp
+    rcases firstIdxFrom_zero_cases (containedIn a) containers with ⟨h1, _⟩ | ⟨j, hj, h1, _, _⟩
+    · exact absurd h1 hne
+    · show 0 ≤ f a ∧ f a < _
+      simp only [f, h1]; omega
+  have hsorted : (ps.map (·.2)).Pairwise (· ≤ ·) := by
+    rw [List.pairwise_map]
+    have h0 : (things.map fun a => (a, f a)).Pairwise
+        (fun p q => p.2 ≠ -1 → q.2 ≠ -1 → p.2 ≤ q.2) := by
+      rw [List.pairwise_map]
+      exact (sortedByTimeB_pairwise ht).imp fun {a b} hab h1 h2 => firstIdx_mono hpw hab h1 h2
+    refine (h0.filter _).imp_of_mem ?_
+    intro p q hp hq hpq
+    have hp' := (List.mem_filter.1 hp).2
+    have hq' := (List.mem_filter.1 hq).2
+    exact hpq (by simpa using hp') (by simpa using hq')
+  have hsel : ∀ (j : Nat) (hj : j < containers.length),
+      (ps.filter fun p => decide (p.2 = (j : Int))).map (·.1) = things.filter fun a => containedIn a containers[j] := by
+    intro j hj
+    have h1 : ps.filter (fun p => decide (p.2 = (j : Int))) =
+        (things.map fun a => (a, f a)).filter fun p => decide (p.2 = (j : Int)) := by
+      simp only [ps, List.filter_filter]
+      apply List.filter_congr
+      intro p _
+      by_cases h : p.2 = (j : Int)
+      · have : p.2 ≠ -1 := by omega
+        simp [h]
+      · simp [h]
+    rw [h1, List.filter_map, List.map_map]
+    have : ((fun (x : Row × Int) => x.1) ∘ fun a => (a, f a)) = id := rfl
+    rw [this, List.map_id]
+    apply List.filter_congr
+    intro a _
+    have := firstIdx_eq_iff hpw a j hj
+    simp only [Function.comp, f]
+    by_cases hcon : containedIn a containers[j] = true
+    · simp [hcon, this.2 hcon]
+    · have hne : ¬ firstIdxFrom 0 (containedIn a) containers = (j : Int) := fun h => hcon (this.1 h)
+      simp [hcon, hne]
+  -- unfold the model
+  unfold splitByContainmentCore
+  simp only [hwhich, hzip]
+  show (if (ps.map (·.1)).isEmpty = true then containers.map fun _ => []
+    else (getEmptyContainerIds containers.length ((unique (ps.map (·.2))).map Int.toNat)).foldl
+      (fun acc c => pyInsert acc c []) (split (ps.map (·.1)) (splitIndices (ps.map (·.2))))) = _
+  by_cases hemp : ps = []
+  · -- nothing is contained anywhere
+    simp only [hemp, List.map_nil, List.isEmpty_nil, ite_true, splitSpec]
+    apply List.map_congr_left
+    intro b hb
+    symm
+    rw [List.filter_eq_nil_iff]
+    intro a ha hcon
+    obtain ⟨j, hj, rfl⟩ := List.getElem_of_mem hb
+    have hfa : f a = (j : Int) := (firstIdx_eq_iff hpw a j hj).2 hcon
+    have : (a, f a) ∈ ps := by
+      apply List.mem_filter.2
+      refine ⟨List.mem_map.2 ⟨a, ha, rfl⟩, ?_⟩
+      have : f a ≠ -1 := by omega
+      simpa using this
+    rw [hemp] at this
+    cases this
+  · have hne : ¬ (ps.map (·.1)).isEmpty = true := by simpa using hemp
+    rw [if_neg hne]
+    rw [split_eq_runs ps hemp, unique_eq_runs ps hsorted, List.map_map]
+    have hins := insert_empties containers.length (runsOf ps) 0 [] rfl (Nat.zero_le _)
+      (runsOf_asc _ ps 0 hsorted (by simpa using hrange))
+    simp only [List.nil_append, Nat.sub_zero] at hins
+    have hfun : ((fun (x : Int) => x.toNat) ∘ fun (x : Int × List Row) => x.1) = fun x => x.1.toNat := rfl
+    unfold getEmptyContainerIds
+    rw [hfun, hins, splitSpec]
+    apply List.ext_getElem
+    · simp
+    · intro j h1 h2
+      have hj : j < containers.length := by simpa using h2
+      simp only [List.getElem_map, List.getElem_range', Nat.zero_add, Nat.one_mul]
+      rw [groupOf_runsOf _ ps hsorted, hsel j hj]
+
+
+theorem splitByContainment_eq_spec {things containers : List Row} (ht : sortedByTimeB things = true)
+    (hc : sortedByTimeB containers = true) (hnt : nonNegB things = true) (hnc : nonNegB containers = true)
+    (hn : nonOverlapB containers = true) :
+    splitByContainment things containers = .ok (splitSpec containedIn things containers) := by
+  simp only [splitByContainment, sanity_ok ht hc hnt hnc]
+  by_cases he : containers.isEmpty = true
+  · have : containers = [] := List.isEmpty_iff.1 he
+    subst this
+    simp [splitSpec]
+  · simp only [he, Bool.false_eq_true, ite_false, splitByContainmentCore_eq_spec ht hc hn]
+
+theorem splitSpec_congr {things containers : List Row} (hp : positiveRowsB things = true) :
+    splitSpec containedIn things containers = splitSpec subsetOf things containers := by
+  unfold splitSpec
+  apply List.map_congr_left
+  intro b _
+  apply List.filter_congr
+  intro a ha
+  exact containedIn_eq_subsetOf (positiveRowsB_iff.1 hp a ha)
+
+/-! ### `diff` -/
+
+/-- direct definition of `strax.diff`: start of row `i+1` minus the largest end among rows `0..i` -/
+def diffSpec : List Row → List Int
+  | [] => []
+  | r0 :: rest => rest.zipIdx.map fun p => p.1.time - maxEnd r0.endt (rest.take p.2)
+
+theorem diffAux_eq (rest : List Row) : ∀ (a : Row) (m : Int),
+    diffAux m (a :: rest) = rest.zipIdx.map fun p => p.1.time - maxEnd (max m a.endt) (rest.take p.2) := by
+  induction rest with
+  | nil => intros; rfl
+  | cons b rest ih =>
+    intro a m
+    simp only [diffAux, ih b (max m a.endt), List.zipIdx_cons, List.map_cons, List.take_zero, maxEnd, Nat.zero_add]
+    congr 1
+    rw [List.zipIdx_succ, List.map_map]
+    apply List.map_congr_left
+    intro p _
+    obtain ⟨r, i⟩ := p
+    simp [maxEnd]
+
+theorem diffGaps_eq_spec (rows : List Row) : diffGaps rows = diffSpec rows := by
+  cases rows with
+  | nil => rfl
+  | cons r0 rest =>
+    simp only [diffGaps, diffSpec, diffAux_eq rest r0 r0.endt]
+    simp
+
+
+theorem findBreakSpec_lt {data : List Row} {safe nb : Int} {i : Nat} (h : findBreakSpec data safe nb = .ok i) :
+    1 ≤ i ∧ i < data.length := by
+  unfold findBreakSpec at h
+  split at h
+  · rename_i j hj
+    have := List.mem_of_find?_eq_some hj
+    have hm := List.mem_range'_1.1 this
+    cases h
+    omega
+  · cases h
+
+theorem fromBreak_eq (x : List Row) (safe nb : Int) (left : Bool) (h : 2 ≤ x.length) :
+    (∀ i, findBreakSpec x safe nb = .ok i → ∃ r, x[i]? = some r ∧
+      fromBreak x safe nb left false = .ok (if left then x.take i else x.drop i, r.time)) ∧
+    (∀ e, findBreakSpec x safe nb = .error e → fromBreak x safe nb left false = .error e) := by
+  have hspec := findBreakI_eq_spec x safe nb h
+  match x, h with
+  | d0 :: d1 :: rest, _ =>
+    constructor
+    · intro i hi
+      have hlt := (findBreakSpec_lt hi).2
+      refine ⟨(d0 :: d1 :: rest)[i], by simp, ?_⟩
+      simp only [fromBreak, Bool.false_eq_true, ite_false, hspec, hi, List.getElem?_eq_getElem hlt]
+      rfl
+    · intro e he
+      simp only [fromBreak, Bool.false_eq_true, ite_false, hspec, he]
+
+
 end Strax.IntervalAlgos
